@@ -2,8 +2,11 @@ package main
 
 import (
 	"fmt"
+	"go/constant"
+	"go/token"
 	"go/types"
 	"math"
+	"math/big"
 	"strings"
 
 	"golang.org/x/tools/go/ssa"
@@ -182,6 +185,17 @@ func init() {
 			}
 			c.Return(&Term{Sort: BoolSort, S: fmt.Sprintf("(and (<= %s %s) (<= %s %d))", los, z.S, z.S, hi.U), size: 4})
 		},
+		// vhConstEqI64(v, i): the constant is an integer equal to the int64 i
+		"vhConstEqI64": func(c *CallCtx) {
+			iv, ok := c.args[0].(Iface)
+			if !ok || iv.T != constIntModelType {
+				c.Return(False)
+				return
+			}
+			c.Return(app(BoolSort, "=", iv.V.(*Term), sbv2int(c.args[1].(*Term))))
+		},
+		// vhConstKind(v): v.Kind() as an int
+		"vhConstKind": func(c *CallCtx) { c.Return(BVC(64, uint64(constKindOf(c.args[0])))) },
 		// vhConstLow64(v): the low 64 bits of the constant (two's complement)
 		"vhConstLow64": func(c *CallCtx) {
 			z := c.args[0].(Iface).V.(*Term)
@@ -375,6 +389,35 @@ func errorValue(kind string) Value {
 
 // constIntModelType: dynamic type of a go/constant.Value holding an exact integer (model of constant.int64Val / intVal)
 var constIntModelType = types.NewNamed(types.NewTypeName(0, nil, "constant.intModel", nil), types.NewStruct(nil, nil), nil)
+
+// constRatModelType: an exact quotient of two integer constants (kind Float); constBoolModelType: a boolean constant
+var constRatModelType = types.NewNamed(types.NewTypeName(0, nil, "constant.ratModel", nil), types.NewStruct(nil, nil), nil)
+var constBoolModelType = types.NewNamed(types.NewTypeName(0, nil, "constant.boolModel", nil), types.NewStruct(nil, nil), nil)
+
+func constKindOf(v Value) constant.Kind {
+	if i, ok := v.(Iface); ok {
+		switch i.T {
+		case constIntModelType:
+			return constant.Int
+		case constRatModelType:
+			return constant.Float
+		case constBoolModelType:
+			return constant.Bool
+		}
+	}
+	unsupported("Kind of a go/constant value that is not modelled")
+	return constant.Unknown
+}
+
+// sbv2int: the signed value of a bit-vector as an SMT Int
+func sbv2int(b *Term) *Term {
+	w := b.Sort.W
+	pow := new(big.Int).Lsh(big.NewInt(1), uint(w)).String()
+	nat := app(IntSort, "bv2nat", b)
+	msb := app(BoolSort, "=", app(BVSort(1), fmt.Sprintf("(_ extract %d %d)", w-1, w-1), b), BVC(1, 1))
+	return Ite(msb, app(IntSort, "-", nat, &Term{Sort: IntSort, S: pow, size: 1}), nat)
+}
+
 var errorPtrType = types.NewPointer(types.NewNamed(types.NewTypeName(0, nil, "errors.errorString", nil), types.NewStruct(nil, nil), nil))
 var compileErrorType = types.NewNamed(types.NewTypeName(0, nil, "gomacro.CompileError", nil), types.NewStruct(nil, nil), nil)
 
@@ -586,9 +629,92 @@ func libStubs() map[string]StubFn {
 		zero := &Term{Sort: BoolSort, S: fmt.Sprintf("(= %s 0)", z.S), size: 2}
 		c.Return(Ite(neg, BVC(64, ^uint64(0)), Ite(zero, BVC(64, 0), BVC(64, 1))))
 	}
-	m["invoke:go/constant.Value.Kind"] = func(c *CallCtx) {
-		constInt(c.args[0])
-		c.Return(BVC(64, 3)) // constant.Int
+	m["invoke:go/constant.Value.Kind"] = func(c *CallCtx) { c.Return(BVC(64, uint64(constKindOf(c.args[0])))) }
+	// BinaryOp on two integer constants: exact integer arithmetic; x / y (token.QUO) is an exact quotient of kind
+	// Float (go/constant keeps it as a fraction), x /= y (token.QUO_ASSIGN) is Go's truncated integer division;
+	// bitwise operators through 192-bit two's complement (exact for |operand| < 2^190; vhConstInt gives |c| < 2^130)
+	m["go/constant.BinaryOp"] = func(c *CallCtx) {
+		x, y := constInt(c.args[0]), constInt(c.args[2])
+		opT := c.args[1].(*Term)
+		if !opT.Const {
+			unsupported("go/constant.BinaryOp with a symbolic operator")
+		}
+		ret := func(z *Term) { c.Return(Iface{T: constIntModelType, V: c.ex.nameTerm(c.st, z, "cz")}) }
+		iapp := func(op string, a ...*Term) *Term { return app(IntSort, op, a...) }
+		abs := func(a *Term) *Term { return iapp("abs", a) }
+		zero := IntC(0)
+		neg := func(a *Term) *Term { return app(BoolSort, "<", a, zero) }
+		bits := func(op string, notY bool) {
+			bx, by := app(BVSort(192), "(_ int2bv 192)", x), app(BVSort(192), "(_ int2bv 192)", y)
+			if notY {
+				by = app(BVSort(192), "bvnot", by)
+			}
+			ret(sbv2int(app(BVSort(192), op, bx, by)))
+		}
+		switch token.Token(opT.U) {
+		case token.ADD:
+			ret(iapp("+", x, y))
+		case token.SUB:
+			ret(iapp("-", x, y))
+		case token.MUL:
+			ret(iapp("*", x, y))
+		case token.QUO, token.QUO_ASSIGN, token.REM:
+			if !c.ex.guard(c.st, Not(app(BoolSort, "=", y, zero)), "division by zero") {
+				return
+			}
+			if token.Token(opT.U) == token.QUO {
+				c.Return(Iface{T: constRatModelType, V: Tuple{x, y}})
+				return
+			}
+			q := iapp("div", abs(x), abs(y))
+			q = Ite(app(BoolSort, "=", neg(x), neg(y)), q, iapp("-", q))
+			if token.Token(opT.U) == token.QUO_ASSIGN {
+				ret(q)
+			} else {
+				ret(iapp("-", x, iapp("*", q, y)))
+			}
+		case token.AND:
+			bits("bvand", false)
+		case token.OR:
+			bits("bvor", false)
+		case token.XOR:
+			bits("bvxor", false)
+		case token.AND_NOT:
+			bits("bvand", true)
+		default:
+			unsupported("go/constant.BinaryOp operator %v", token.Token(opT.U))
+		}
+	}
+	m["go/constant.Compare"] = func(c *CallCtx) {
+		x, y := constInt(c.args[0]), constInt(c.args[2])
+		opT := c.args[1].(*Term)
+		if !opT.Const {
+			unsupported("go/constant.Compare with a symbolic operator")
+		}
+		switch token.Token(opT.U) {
+		case token.EQL:
+			c.Return(app(BoolSort, "=", x, y))
+		case token.NEQ:
+			c.Return(Not(app(BoolSort, "=", x, y)))
+		case token.LSS:
+			c.Return(app(BoolSort, "<", x, y))
+		case token.LEQ:
+			c.Return(app(BoolSort, "<=", x, y))
+		case token.GTR:
+			c.Return(app(BoolSort, ">", x, y))
+		case token.GEQ:
+			c.Return(app(BoolSort, ">=", x, y))
+		default:
+			unsupported("go/constant.Compare operator %v", token.Token(opT.U))
+		}
+	}
+	m["go/constant.MakeBool"] = func(c *CallCtx) { c.Return(Iface{T: constBoolModelType, V: c.args[0]}) }
+	m["go/constant.BoolVal"] = func(c *CallCtx) {
+		i, ok := c.args[0].(Iface)
+		if !ok || i.T != constBoolModelType {
+			unsupported("go/constant.BoolVal on a value that is not a modelled boolean constant")
+		}
+		c.Return(i.V)
 	}
 	m["math.Float64bits"] = func(c *CallCtx) { c.Return(FPToBits(c.args[0].(*Term))) }
 	m["math.Float32bits"] = func(c *CallCtx) { c.Return(FPToBits(c.args[0].(*Term))) }
